@@ -48,6 +48,7 @@ type frame struct {
 	hdr     map[*ssa.BasicBlock]*hdrInfo
 	declFrames map[*loopInfo]*declFrame
 	assertHit  map[int]bool
+	closureBindings []Val // captured cells of the closure whose contract is being applied
 }
 
 // declFrame is a loop frame declared with a loop-level assigns clause.
